@@ -3,8 +3,11 @@
 //! `balance_before_entry`).
 use crate::rng::Rng;
 use grevm::verif::reserve as real;
-use revm_context::{Transaction, TxEnv};
-use revm_primitives::{Address, B256, TxKind, U256};
+use revm::context_interface::journaled_state::{account::JournaledAccountTr, entry::SelfdestructionRevertStatus};
+use revm_context::{Journal, JournalEntry, JournalTr, Transaction, TxEnv, journaled_state::JournalCheckpoint};
+use revm_database::EmptyDB;
+use revm_primitives::{Address, B256, TxKind, U256, hardfork::SpecId};
+use revm_state::{Account, Bytecode};
 use std::{fmt::Write as _, sync::Arc};
 
 pub fn addr(i: u64) -> Address {
@@ -187,6 +190,278 @@ pub fn planner_case(rng: &mut Rng, i: u64, inp: &mut String, out: &mut String) {
     }
 }
 
-pub fn journal_case(_rng: &mut Rng, _i: u64, _inp: &mut String, _out: &mut String) {
-    unimplemented!("journal")
+// ------------------------------------------------------------------------------------ journal
+
+fn write_entries(inp: &mut String, entries: &[JournalEntry]) {
+    write!(inp, " {}", entries.len()).unwrap();
+    for e in entries {
+        match e {
+            JournalEntry::BalanceTransfer { from, to, balance } => {
+                write!(inp, " T {} {} {:x}", addr_id(*from), addr_id(*to), balance).unwrap()
+            }
+            JournalEntry::AccountDestroyed { address, target, had_balance, .. } => {
+                write!(inp, " D {} {} {:x}", addr_id(*address), addr_id(*target), had_balance).unwrap()
+            }
+            JournalEntry::BalanceChange { address, old_balance } => {
+                write!(inp, " C {} {:x}", addr_id(*address), old_balance).unwrap()
+            }
+            _ => inp.push_str(" O"),
+        }
+    }
+}
+
+fn account_with(balance: U256, code: u64, delegate_to: Address) -> Account {
+    let mut account = Account::default();
+    account.info.balance = balance;
+    account.info.code = match code {
+        0 => None,                                                          // code not loaded
+        1 => Some(Bytecode::new_eip7702(delegate_to)),                      // designator
+        2 => Some(Bytecode::new_raw(vec![0x60, 0x00, 0x00].into())),        // ordinary contract
+        _ => Some(Bytecode::default()),                                     // loaded, empty
+    };
+    if let Some(code) = &account.info.code {
+        account.info.code_hash = code.hash_slow();
+    }
+    account
+}
+
+fn balances_of(journal: &Journal<EmptyDB>, n_addr: u64) -> Vec<Option<U256>> {
+    (1..=n_addr).map(|i| journal.inner.state.get(&addr(i)).map(|a| a.info.balance)).collect()
+}
+
+/// journal <cp> <tx> <nstate> {addr bal deleg}* <nentries> {entry}* <nbb> {k a}* <nsnap> {k a bal}*
+/// impl:  d:<addr>:<before>:<final>,.. (sorted by address)  bb:<balance_before_entry(k, a)>,..
+pub fn journal_case(rng: &mut Rng, i: u64, inp: &mut String, out: &mut String) {
+    let malformed = i % 4 == 3;
+    let n_addr = 8u64;
+    let mut journal = Journal::<EmptyDB>::new(EmptyDB::default());
+    // AccountDestroyed is only journaled before Cancun or for accounts created in this tx
+    let spec = if rng.chance(1, 2) { SpecId::PRAGUE } else { SpecId::SHANGHAI };
+    journal.set_spec_id(spec);
+    let big = rng.below(n_addr) + 1; // at most one very rich account: no U256 overflow on credits
+    for a in 1..=6u64 {
+        let balance = if malformed {
+            boundary_u256(rng)
+        } else if a == big && rng.chance(1, 3) {
+            (U256::from(1u64) << 255) - U256::from(rng.below(3))
+        } else {
+            match rng.below(5) {
+                0 => U256::ZERO,
+                1 => U256::from(rng.below(5)),
+                _ => U256::from(rng.below(2000)),
+            }
+        };
+        let code = if rng.chance(1, 2) { 1 } else { rng.below(4) };
+        journal.inner.state.insert(addr(a), account_with(balance, code, addr(1 + rng.below(n_addr))));
+    }
+    // addresses 7, 8 are loaded from the (empty) database on first use
+
+    let caller = addr(1 + rng.below(6));
+    let target = addr(1 + rng.below(n_addr));
+    let mut tx = TxEnv {
+        caller,
+        kind: if rng.chance(1, 5) { TxKind::Create } else { TxKind::Call(target) },
+        value: match rng.below(4) {
+            0 => U256::ZERO,
+            _ => U256::from(rng.range(1, 40)),
+        },
+        ..Default::default()
+    };
+
+    let mut snaps: Vec<(usize, Vec<Option<U256>>)> = Vec::new();
+    let cp;
+    if malformed {
+        // entries pushed directly: any kind, any values (from == to, zero, not matching the
+        // balances) - both sides must still agree, including where the walk saturates
+        let pre = rng.below(3) as usize;
+        let total = pre + rng.below(9) as usize;
+        let mut entries = Vec::new();
+        for _ in 0..total {
+            let (x, y) = (addr(1 + rng.below(n_addr)), addr(1 + rng.below(n_addr)));
+            let v = match rng.below(4) {
+                0 => U256::ZERO,
+                1 => tx.value,
+                2 => boundary_u256(rng),
+                _ => U256::from(rng.below(3000)),
+            };
+            entries.push(match rng.below(8) {
+                0 | 1 | 2 => JournalEntry::BalanceTransfer { from: x, to: y, balance: v },
+                3 => JournalEntry::BalanceTransfer { from: caller, to: target, balance: tx.value },
+                4 => JournalEntry::AccountDestroyed {
+                    address: x,
+                    target: y,
+                    destroyed_status: SelfdestructionRevertStatus::GloballySelfdestroyed,
+                    had_balance: v,
+                },
+                5 => JournalEntry::BalanceChange { address: x, old_balance: v },
+                6 => JournalEntry::NonceBump { address: x },
+                _ => JournalEntry::AccountTouched { address: x },
+            });
+        }
+        journal.inner.journal.extend(entries.drain(..pre));
+        cp = journal.checkpoint();
+        journal.inner.journal.extend(entries);
+    } else {
+        // --- before the execution checkpoint: fee deduction / nonce bump style entries ---
+        for _ in 0..rng.below(3) {
+            snaps.push((journal.inner.journal.len(), balances_of(&journal, n_addr)));
+            let a = addr(1 + rng.below(6));
+            let mut acc = journal.load_account_mut(a).unwrap().data;
+            if rng.chance(1, 2) {
+                let b = *acc.balance();
+                acc.set_balance(b - b / U256::from(rng.range(2, 5)));
+            } else {
+                acc.bump_nonce();
+            }
+        }
+        cp = journal.checkpoint();
+        let mut open: Vec<(JournalCheckpoint, usize)> = Vec::new(); // (checkpoint, snaps.len() at creation)
+        let nops = rng.below(11);
+        for op in 0..nops {
+            snaps.push((journal.inner.journal.len(), balances_of(&journal, n_addr)));
+            let (x, y) = (addr(1 + rng.below(n_addr)), addr(1 + rng.below(n_addr)));
+            let bal_x = journal.inner.state.get(&x).map_or(U256::ZERO, |a| a.info.balance);
+            let amount = match rng.below(6) {
+                0 => U256::ZERO,
+                1 => bal_x,
+                2 => bal_x + U256::from(1u64), // out of funds: fails, nothing journaled but a touch
+                3 => tx.value,
+                _ => bal_x / U256::from(rng.range(1, 4)),
+            };
+            match if op == 0 && rng.chance(2, 3) { 100 } else { rng.below(14) } {
+                100 => {
+                    // the root value transfer (or the root CREATE endowment)
+                    let bal_c = journal.inner.state.get(&caller).map_or(U256::ZERO, |a| a.info.balance);
+                    if bal_c < tx.value {
+                        tx.value = bal_c;
+                    }
+                    journal.transfer(caller, target, tx.value).unwrap();
+                }
+                0..=4 => {
+                    journal.transfer(x, y, amount).unwrap();
+                }
+                5 => {
+                    journal.load_account(x).unwrap();
+                    journal.selfdestruct(x, y, false).unwrap();
+                }
+                6 => {
+                    journal.balance_incr(x, U256::from(rng.below(500))).unwrap();
+                }
+                7 => {
+                    let mut acc = journal.load_account_mut(x).unwrap().data;
+                    if rng.chance(1, 2) {
+                        acc.decr_balance(amount);
+                    } else {
+                        acc.set_balance(U256::from(rng.below(3000)));
+                    }
+                }
+                8 => {
+                    let mut acc = journal.load_account_mut(x).unwrap().data;
+                    acc.bump_nonce();
+                }
+                9 => journal.touch_account(x),
+                10 | 11 => open.push((journal.checkpoint(), snaps.len())),
+                12 => {
+                    if let Some((c, n)) = open.pop() {
+                        if rng.chance(1, 2) {
+                            journal.checkpoint_revert(c);
+                            snaps.truncate(n); // snapshots of the reverted range no longer exist
+                        } else {
+                            journal.checkpoint_commit();
+                        }
+                    }
+                }
+                _ => {
+                    // CREATE endowment to a fresh address (own checkpoint; committed or reverted)
+                    let fresh = addr(20 + op);
+                    journal.load_account(x).unwrap();
+                    journal.load_account(fresh).unwrap();
+                    let n = snaps.len();
+                    if amount <= bal_x {
+                        if let Ok(c) = journal.create_account_checkpoint(x, fresh, amount, spec) {
+                            if rng.chance(1, 3) {
+                                journal.checkpoint_revert(c);
+                                snaps.truncate(n);
+                            } else {
+                                journal.checkpoint_commit();
+                            }
+                        }
+                    }
+                }
+            }
+        }
+        while let Some((c, n)) = open.pop() {
+            if rng.chance(1, 3) {
+                journal.checkpoint_revert(c);
+                snaps.truncate(n);
+            } else {
+                journal.checkpoint_commit();
+            }
+        }
+        // reimbursement of the caller
+        if rng.chance(1, 2) {
+            snaps.push((journal.inner.journal.len(), balances_of(&journal, n_addr)));
+            journal.balance_incr(caller, U256::from(rng.below(100))).unwrap();
+        }
+    }
+    let entries: Vec<JournalEntry> = journal.inner.journal.clone();
+    // keep only snapshots that are still consistent with the surviving journal
+    snaps.retain(|(k, _)| *k <= entries.len());
+
+    write!(inp, "journal {:x}", cp.journal_i).unwrap();
+    write_tx(inp, &tx);
+    let mut state: Vec<(Address, U256, bool)> = journal
+        .inner
+        .state
+        .iter()
+        .map(|(a, acc)| (*a, acc.info.balance, acc.info.code.as_ref().is_some_and(|c| c.is_eip7702())))
+        .collect();
+    state.sort();
+    write!(inp, " {}", state.len()).unwrap();
+    for (a, b, d) in &state {
+        write!(inp, " {} {:x} {}", addr_id(*a), b, *d as u8).unwrap();
+    }
+    write_entries(inp, &entries);
+
+    // --- real scan ---
+    let mut debits = real::delegated_debits_since(&journal, cp, &tx);
+    debits.sort();
+    out.push_str("d:");
+    for (a, before, fin) in &debits {
+        write!(out, "{}:{:x}:{:x},", addr_id(*a), before, fin).unwrap();
+    }
+    // --- real reverse walk at (k, a) points: every snapshot point, plus random ones ---
+    let mut points: Vec<(usize, Address, U256)> = Vec::new();
+    for (k, bals) in &snaps {
+        for (idx, b) in bals.iter().enumerate() {
+            let a = addr(idx as u64 + 1);
+            if b.is_some() && journal.inner.state.contains_key(&a) && rng.chance(1, 2) {
+                points.push((*k, a, journal.inner.state[&a].info.balance));
+            }
+        }
+    }
+    for _ in 0..3 {
+        let a = addr(1 + rng.below(n_addr));
+        let fin = if malformed { boundary_u256(rng) } else { U256::from(rng.below(5000)) };
+        points.push((rng.below(entries.len() as u64 + 1) as usize, a, fin));
+    }
+    write!(inp, " {}", points.len()).unwrap();
+    out.push_str(" bb:");
+    for (k, a, fin) in &points {
+        write!(inp, " {:x} {} {:x}", k, addr_id(*a), fin).unwrap();
+        write!(out, "{:x},", real::balance_before_entry(&entries, *k, *a, *fin)).unwrap();
+    }
+    // the balances the accounts really had when the journal had length k (model-independent
+    // reference for the walk; `S` tokens are ignored by the model)
+    let mut snap_tokens = String::new();
+    let mut count = 0;
+    for (k, bals) in &snaps {
+        for (idx, b) in bals.iter().enumerate() {
+            if let Some(b) = b {
+                write!(snap_tokens, " {:x} {:x} {:x}", k, idx + 1, b).unwrap();
+                count += 1;
+            }
+        }
+    }
+    write!(inp, " {count}{snap_tokens}").unwrap();
 }
